@@ -25,8 +25,7 @@ def run(ck: Check):
             if len(tc[1]) < 2:
                 continue
             for cfg in cfgs[:2]:
-                ex.dfs(strategy, cfg, tc, stream=strategy, replay=True,
-                       max_runs=40 if quick else 300)
+                ex.dfs(strategy, cfg, tc, stream=strategy, max_runs=40 if quick else 300)
     r = rng("c04")
     for i in range(60 if quick else 600):
         k = r.randint(5, 40)
@@ -36,8 +35,7 @@ def run(ck: Check):
         bias = r.choice([0.1, 0.5, 0.9])
         v = "Y" + "".join("Y" if r.random() < bias else "N" for _ in range(800))
         strategy = r.choice(["minimize", "minimize-around", "minimize-balanced"])
-        ex.one(strategy, r.choice(cfgs), tc, content(tc), v, stream="random",
-               replay=strategy != "minimize")
+        ex.one(strategy, r.choice(cfgs), tc, content(tc), v, stream="random")
     ex.diff()
     return ck.finish(level="proof", rule=RULE, assumptions=[
         "minimize-around / minimize-balanced: see DESIGN.md for which of their theorems are proved"])
